@@ -25,8 +25,13 @@ ACT = gen.vent('Action', 'view')
 STORE = ['store',
          ['ent', UA, ['parents', G], ['attrs', [S('name'), gen.vstr('alice')], [S('n'), gen.vlong(1)]], ['tags', [S('k'), gen.vlong(1)]]],
          ['ent', UB, ['parents'], ['attrs', [S('name'), gen.vstr('bob')]], ['tags']],
-         ['ent', G, ['parents'], ['attrs'], ['tags']],
-         ['ent', DOC, ['parents'], ['attrs', [S('owner'), UA]], ['tags']]]
+         ['ent', G, ['parents', gen.vent('Group', 'top')], ['attrs'], ['tags']],
+         ['ent', gen.vent('Group', 'top'), ['parents'], ['attrs'], ['tags']],
+         ['ent', DOC, ['parents'], ['attrs', [S('owner'), UA]], ['tags']],
+         # the action hierarchy is two levels deep: view -> readers -> all (listed groups are reached through more than one hop)
+         ['ent', ACT, ['parents', gen.vent('Action', 'readers')], ['attrs'], ['tags']],
+         ['ent', gen.vent('Action', 'readers'), ['parents', gen.vent('Action', 'all')], ['attrs'], ['tags']],
+         ['ent', gen.vent('Action', 'all'), ['parents'], ['attrs'], ['tags']]]
 
 VALUES = {
     'p': [UA, UB, UC], 'r': [DOC, UA], 'f': [gen.vbool(True), gen.vbool(False)], 'n': [gen.vlong(1), gen.vlong(2)],
@@ -207,10 +212,12 @@ def scope_for(r, which):
     if which == 'action':
         # every action scope form: all, ==, in, in [..] (empty, with the action, without it)
         return r.choice([['all'], ['all'], ['all'], ['eq', ACT], ['eq', ACT], ['eq', gen.vent('Action', 'edit')], ['in', ACT], ['in', gen.vent('Action', 'grp')],
-                         ['inset'], ['inset', ACT], ['inset', gen.vent('Action', 'edit'), ACT], ['inset', gen.vent('Action', 'edit')]])
+                         ['inset'], ['inset', ACT], ['inset', gen.vent('Action', 'edit'), ACT], ['inset', gen.vent('Action', 'edit')],
+                         ['in', gen.vent('Action', 'all')], ['in', gen.vent('Action', 'readers')], ['inset', gen.vent('Action', 'all')],
+                         ['inset', gen.vent('Action', 'edit'), gen.vent('Action', 'all')], ['inset', gen.vent('Action', 'readers'), gen.vent('Action', 'nosuch')]])
     if which == 'principal':
         return r.choice([['all'], ['all'], ['eq', UA], ['in', G], ['is', S('User')], ['isin', S('User'), G], ['in', UA], ['isin', S('Doc'), G], ['isin', S('User'), gen.vent('Group', 'h')],
-                         ['eq', UB], ['is', S('Group')]])
+                         ['eq', UB], ['is', S('Group')], ['in', gen.vent('Group', 'top')], ['isin', S('User'), gen.vent('Group', 'top')]])
     return r.choice([['all'], ['all'], ['eq', DOC], ['in', DOC], ['is', S('Doc')], ['is', S('User')], ['isin', S('Doc'), DOC], ['isin', S('User'), G], ['in', G], ['eq', UA]])
 
 
